@@ -259,6 +259,15 @@ func checkC18() int {
 			c.Sample(map[string]interface{}{"flags": flags, "class": class, "exit": inv.exit, "stderr": clip(inv.stderr, 200), "stdout_labels": strings.Count(inv.stdout, "> ")})
 		}
 	}
+	{
+		// pinned witness of N2
+		cmd := exec.Command(bin, "--notypecheck", "/verif/known/N2.grits")
+		var se bytes.Buffer
+		cmd.Stderr = &se
+		cmd.Run()
+		pan := strings.Contains(se.String(), "RuntimeEnvironment).error") && strings.Contains(se.String(), "goroutine ")
+		c.PinnedWitness("N2", pan, "Go panic trace: runtime protocol error raised by RuntimeEnvironment.error/errorf (pinned witness, typecheck off=true, open program=false, mode=async)", map[string]interface{}{"stderr": clip(se.String(), 1500)})
+	}
 	c.Extra["invocations_by_source_and_class"] = bySource
 	c.Extra["invocations_by_exit_status"] = byExit
 	c.Extra["files"] = len(cases)
